@@ -34,7 +34,8 @@ TRUSTED = ['outline-chain model with stepper save/restore (lean/PlumpyModel/Outl
            'harness and compared with the real crash-restore chain of every plain program (call trace, final state, outcome, number '
            'of restores); values are interned to integers (the model transports values, it never inspects one)',
            'saveCfg / restoreCfg are the hand-written image, in the process-control model, of what Persist.save / load (C07) keep of a '
-           'process: that image is tied to the code by this correspondence, not by a theorem linking the two Lean models',
+           'process; C08_plain_bundle_roundtrip shows that everything restoreCfg reads survives Persist.save / load (generated member '
+           'tables); that restoreCfg resets everything else as load_instance_state + init() do is tied to the code by this correspondence',
            'outputs and inputs of plain processes are not part of the process-control model: their equality with the uninterrupted '
            'run is decided by the monitors on the real code (and their round trip by C08_continuation_persisted / C07)']
 
